@@ -74,9 +74,16 @@ pub fn test_case(b: &Case) -> Result<CaseInfo, Fail> {
                 }
             }
         }
-        let everything_ended = obs.sessions.iter().all(|s| s.actor_finished.iter().all(|x| *x));
-        if everything_ended && obs.permits.iter().any(|p| *p != b.concurrency) {
-            return Err(Fail::new("C17|permit-leak-after-cancel", format!("all policies ended (session {cs} cancelled) but the permits are {:?} of {}", obs.permits, b.concurrency)));
+        // a policy that was cancelled at every party must not keep a permit once nothing can happen any
+        // more (exact quiescence), whether or not the cancel calls have returned
+        // (a session with coordination calls still in flight is not judged: its parties wait for each
+        // other's answers, which a real transport ends with a timeout)
+        let others_ended = obs.sessions.iter().enumerate().all(|(si, s)| si == cs || s.actor_finished.iter().all(|x| *x));
+        if others_ended && s.inflight_calls == 0 && obs.permits.iter().any(|p| *p != b.concurrency) {
+            return Err(Fail::new(
+                "C17|permit-leak-after-cancel",
+                format!("session {cs} was cancelled at every party and all other policies have ended, but at quiescence the permits are {:?} of {} (cancel results {:?})", obs.permits, b.concurrency, s.cancels),
+            ));
         }
         return Ok(CaseInfo {
             nontrivial: all_ok.then(|| hash_of(&serde_json::to_string(b).unwrap())),
